@@ -48,6 +48,7 @@ type Job struct {
 	ReadFault *ReadFaultSpec `json:"read_fault,omitempty"` // the Nth successful read of a file with this suffix fails with EMFILE
 	XDev  string `json:"xdev,omitempty"` // this directory is on another device: renames across its boundary fail with EXDEV
 	PureBuf bool `json:"pure_buf,omitempty"` // replay: the buffer model the recording was made under (vs.PureBuf)
+	OpFaultNth int `json:"op_fault_nth,omitempty"` // the n-th FS operation fails with EIO (negative: count only)
 	External map[string]string `json:"external,omitempty"` // files created by an outside actor at an arbitrary moment of the run
 	TwoWF bool `json:"two_wf,omitempty"` // build the workflow twice (two Workflow objects), run both
 	NoRaceReport bool            `json:"no_race_report,omitempty"` // race build used only to make memory accesses scheduling points (races themselves are C12's)
@@ -121,6 +122,7 @@ type ReadFaultSpec struct {
 }
 
 type runner struct {
+	opCount      int
 	readCount    int
 	readFaultHit string
 	job   *Job
@@ -232,6 +234,7 @@ func (r *runner) setup() {
 	r.crashViolations = nil
 	r.protectedHits = nil
 	r.readCount, r.readFaultHit = 0, ""
+	r.opCount = 0
 	errLog.Reset()
 	r.env.reset()
 	r.ret = nil
@@ -420,6 +423,18 @@ func runWorkflowJob(job *Job, res *Result) {
 			return nil
 		}
 	}
+	vs.OpFault = nil
+	if job.OpFaultNth != 0 {
+		// OpFaultNth > 0: the n-th file-system operation of the run fails with EIO; < 0: only count
+		vs.OpFault = func(op, path string) error {
+			r.opCount++
+			if r.opCount == job.OpFaultNth {
+				vs.Note("OPFAULT:" + op + ":" + normPath(path))
+				return &os.PathError{Op: op, Path: path, Err: syscall.EIO}
+			}
+			return nil
+		}
+	}
 	vs.ReadFault = nil
 	if job.ReadFault != nil {
 		vs.ReadFault = func(p string) error {
@@ -492,6 +507,9 @@ func runWorkflowJob(job *Job, res *Result) {
 	}
 	res.NOutcomes = len(res.Outcomes)
 	res.PureBuf = vs.PureBuf
+	if job.OpFaultNth != 0 {
+		res.Extra["fs_ops_last_execution"] = r.opCount
+	}
 	res.EventOrders = len(r.orders)
 	res.CrashStates = len(vs.Digests)
 	for _, ms := range sites {
